@@ -435,7 +435,7 @@ func (e *Engine) eval(fr *frame, v ssa.Value) Value {
 			arr.E[i] = e.newCell(e.zero(et))
 		}
 		if e.ev != nil && e.ev.active {
-			arr.Origin = e.originName(e.siteOf(fr, in))
+			arr.Origin = e.originName(fmt.Sprintf("%s/cap%d", e.siteOf(fr, in), cp))
 			arr.Type = types.NewArray(et, int64(cp))
 		}
 		return SliceVal{Arr: arr, Off: 0, Len: ln, Cap: cp}
@@ -828,7 +828,7 @@ func (e *Engine) convert(fr *frame, from, to types.Type, x Value) Value {
 					arr.E[i] = e.newCell(s.B[i])
 				}
 				if e.ev != nil && e.ev.active {
-					arr.Origin = e.originName("conv@" + e.posOf(fr))
+					arr.Origin = e.originName(fmt.Sprintf("conv%d@%s", len(s.B), e.posOf(fr)))
 					arr.Type = types.NewArray(sl.Elem(), int64(len(s.B)))
 				}
 				return SliceVal{Arr: arr, Len: len(s.B), Cap: len(s.B)}
@@ -1002,6 +1002,10 @@ func (e *Engine) builtin(fr *frame, name string, args []Value, c *ssa.CallCommon
 				}
 				arr.E[i] = e.newCell(e.zero(et))
 			}
+		}
+		if e.ev != nil && e.ev.active && e.ev.cur != nil && et != nil {
+			arr.Origin = e.originName(fmt.Sprintf("append%d@%s", nc, e.posOf(fr)))
+			arr.Type = types.NewArray(et, int64(nc))
 		}
 		return SliceVal{Arr: arr, Off: 0, Len: s.Len + len(add), Cap: nc}
 	case "copy":
@@ -1196,7 +1200,7 @@ func (e *Engine) iterNext(fr *frame, it *mapIter, in *ssa.Next) Value {
 		if idx >= 0 {
 			it.pos = idx + 1
 			kr := e.ev.reg.mapKeys[it.shared][idx]
-			_, v := e.evMapLookup(fr, it.shared, kr.val)
+			_, v := e.evMapLookup2(fr, it.shared, kr.val, true)
 			res = TupleVal{e.tb.Bool(true), kr.val, v}
 		}
 		e.endAtomic()
